@@ -26,6 +26,10 @@ func main() {
 		"(content texts, names, descriptions, URIs, _meta and structured-content strings and member names, argument names and values); a handler's Go error - every string class, the keyword and printf sets, random strings; " +
 		"tools/call (also a tool whose name is printf material), prompts/get, resources/read (single and multi handler) on every mode - must reach the caller as EXACTLY the library's fixed wrapper around the message " +
 		"(content:<mode>:handler-error-altered:<op>), and the arguments a caller passes must be what the handler sees (content:<mode>:argument-altered:<op>). " +
+		"Registration histories on every mode (fresh server + client per history; 22 fixed histories - the shortest first: register, list, re-register, list, call - each as written and with a list after every step, plus seeded random ones): " +
+		"register / re-register under the same key with a descriptor that differs in exactly one facet / unregister (tools) / register again / second key / vocabulary names, applied side by side to tools, prompts, resources and resource templates; " +
+		"after every list step the listed descriptors are compared field by field with the currently registered ones (and the order for resources), after every call step the answering handler with the one registered last " +
+		"(content:<mode>:history:<kind>-descriptor-stale / -descriptor-altered / -missing / -unexpected / -order / -handler-stale, input = the history so far), and key + version of every listing against the Lean registry model (content.history). " +
 		"Every end-to-end call is bounded (context deadline 8 s + 6 s/MiB, plus a watchdog): a call that does not return is the failing input content:<transport>:call-never-returns:<op> " +
 		"(with the value the handler returned and a control on a fresh session), after which the env reconnects and goes on; repeated timeouts shorten the ceiling and finally skip the transport (counted). " +
 		"non-trivial = a distinct case in which the decoder (or the end-to-end call) accepted the value",
@@ -38,6 +42,7 @@ func run(c *hk.Ctx) {
 	runEncode(c)
 	runDecode(c)
 	runE2E(c)
+	runHistories(c)
 	runConcurrent(c)
 }
 
